@@ -192,6 +192,9 @@ def draw(kind, seed, call, idx, sort='R', info=None, defs=None):
     return core.SNum(core.Poly.var(v.id), sort == 'I')
 
 
+_UNSEEDED = [0]
+
+
 class Generator:
     def __init__(self, seed):
         self.seed = seed
@@ -199,6 +202,9 @@ class Generator:
         c = core.CUR[0]
         if seed is None and c is not None:
             c.event('rng', 'default_rng() without a seed (OS entropy)')
+            # fresh entropy: the draws of two unseeded generators are unrelated
+            _UNSEEDED[0] += 1
+            self.seed = ('unseeded', _UNSEEDED[0])
 
     def _shape(self, size, *args):
         if size is not None:
